@@ -18,7 +18,7 @@
 #include <assert.h>
 
 // H3 hook (hooks/h3-mtdec.patch). Weak: resolves to NULL when liblzma was built without the hook.
-extern void (*lzma_verif_mt_event)(unsigned ev, const void *p, uint64_t a, uint64_t b) __attribute__((weak));
+extern void (*lzma_verif_mt_event)(unsigned ev, const void *p, uint64_t a, uint64_t b, uint64_t c) __attribute__((weak));
 
 typedef struct { uint8_t *p; size_t n, cap; } vec;
 
@@ -87,10 +87,14 @@ static int ev_id(const void *p)
 	return ev_nptrs++;
 }
 
-static void ev_cb(unsigned ev, const void *p, uint64_t a, uint64_t b)
+static int ev_on;
+
+// Event record: "<ev>.<logical thread>.<pointer id>.<a>.<b>.<c>", comma separated.
+static void ev_cb(unsigned ev, const void *p, uint64_t a, uint64_t b, uint64_t c)
 {
-	char tmp[96];
-	int n = snprintf(tmp, sizeof tmp, "%s%u.%d.%d.%" PRIu64 ".%" PRIu64, evbuf.n ? "," : "", ev, sched_self(), ev_id(p), a, b);
+	if (!ev_on) return;
+	char tmp[128];
+	int n = snprintf(tmp, sizeof tmp, "%s%u.%d.%d.%" PRIu64 ".%" PRIu64 ".%" PRIu64, evbuf.n ? "," : "", ev, sched_self(), ev_id(p), a, b, c);
 	vec_put(&evbuf, tmp, (size_t)n);
 }
 
@@ -105,6 +109,7 @@ typedef struct {
 	int ended_early;
 	uint64_t memusage;
 	int progress_bad;
+	int trace;       // emit harness-level events 1 (call) / 2 (return) into the H3 event buffer
 } result;
 
 static void info_put(result *r, lzma_ret code, uint64_t total_out)
@@ -150,7 +155,9 @@ static void app_loop(lzma_stream *strm, const uint8_t *data, size_t len, slicing
 		lzma_action act = (fin && pos == len) ? LZMA_FINISH : LZMA_RUN;
 		const size_t in_before = strm->avail_in, out_before = strm->avail_out;
 		const uint8_t *out_start = strm->next_out;
+		if (r->trace) ev_cb(1, NULL, act == LZMA_FINISH, strm->avail_in, strm->avail_out);
 		lzma_ret ret = lzma_code(strm, act);
+		if (r->trace) ev_cb(2, NULL, ret, in_before - strm->avail_in, out_before - strm->avail_out);
 		++r->calls;
 		vec_put(&r->out, out_start, out_before - strm->avail_out);
 		last_progress = in_before != strm->avail_in || out_before != strm->avail_out;
@@ -266,7 +273,10 @@ int main(void)
 		memset(&mtr, 0, sizeof mtr);
 		evbuf.n = 0;
 		ev_nptrs = 0;
+		// the event buffer is not thread safe: traces are recorded only when the scheduler serialises the threads
+		ev_on = have_hook && cfg.mode != SCHED_REAL;
 		if (have_hook) lzma_verif_mt_event = ev_cb;
+		mtr.trace = ev_on;
 		sched_stats st;
 		memset(&st, 0, sizeof st);
 		sched_begin(&cfg);
@@ -277,8 +287,10 @@ int main(void)
 		} else {
 			app_loop(&strm, data, len, ins, outs, slice_seed, fin, endat, maxcalls, prog, mlraise, &mtr);
 		}
+		if (mtr.trace) ev_cb(3, NULL, 0, 0, 0);
 		lzma_end(&strm);
 		sched_end(&st);
+		ev_on = 0;
 		if (have_hook) lzma_verif_mt_event = NULL;
 
 		// ---- single-threaded oracle on the same bytes (no scheduler involved: it creates no threads).
@@ -339,7 +351,7 @@ int main(void)
 			" progbad=%d st_var=%d st_variants=%d st_dep=%d hook=%d ev=",
 			str.total_in, same, prefix, mtr.ended_early, st.steps, st.switches, st.threads, st.max_live, st.timeouts, st.spurious,
 			st.waits, st.contended, st.trace_hash, mtr.memusage, mtr.bufloop, mtr.progress_bad, st_var, st_variants, st_dep, have_hook);
-		if (have_hook) print_vec(&evbuf); else putchar('-');
+		if (have_hook && evbuf.n) print_vec(&evbuf); else putchar('-');
 		putchar('\n');
 		fflush(stdout);
 		free(mtr.out.p); free(mtr.info.p); free(str.out.p); free(str.info.p);
